@@ -57,6 +57,10 @@ func c06Ops(sub bool) []string {
 		"vf = func(..) { .. }; b = vf(1, 2, 3, 4, 5, 6, 7, 8, 9, 10); c = vf(11, 12, 13, 14, 15, 16, 17, 18, 19, 20)", "c = func(p, ..) { [p, ..] }(a, 1, 2, 3, 4, 5, 6, 7, 8, 9, 10); len(func(p, ..) { .. }(0, 0, 0, 0, 0, 0, 0, 0, 0, 0, 0))",
 		// a container of an outer scope handed on from inside a function: variadic arguments, literals, locals, parameters
 		"c = func() { func(..) { .. }(a) }()", "c = func() { [a, {\"k\": a}] }()", "c = func() { x = a; x }()", "c = func() { func(p) { [p] }(a) }()", "c = func() { func(p, ..) { [p, ..] }(b, a) }()")
+	// a variable assigned from inside a function (through a reference to the outer variable) between two in-place-looking
+	// updates of it
+	ops = append(ops, "func() { a = b }()", "func() { b = a }()", "a[0] = 120; func() { a = b }(); a[1] = 121", "del(a[0]); func() { a = b }(); del(a[1])", "b[0] = 122; func() { b = a }(); b[1] = 123",
+		"a[0] = 124; sw = func() { c = a; a = b }; sw(); a[-1] = 125")
 	// containers whose representation is large although their length is back under the threshold
 	ops = append(ops, "a = "+c06Map(5)+"; del(a[4])", "a = {0: 1, 0: 2, 0: 3, 0: 4, 0: 5, 1: 6}", "a = "+c06Arr(12)+"; a = a[0:3]", "del(a[1]); del(a[2])")
 	if !sub {
